@@ -614,6 +614,17 @@ def config_setters_keep_false(ctx, rule='TBL'):
                     continue
                 vals = {a_.targets[0].id for a_ in ast.walk(lp) if isinstance(a_, ast.Assign) and isinstance(a_.targets[0], ast.Name)
                         and isinstance(a_.value, ast.Call) and dotted(a_.value.func) == 'getattr'}
+                if any(isinstance(c, ast.Call) and dotted(c.func) == 'setattr' for c in ast.walk(lp)):
+                    from ..srcmodel import facts_at
+                    outer = [txt for _e, txt, _pol in facts_at(lp) if 'isinstance(' not in txt]
+                    by_text = [txt for txt in outer if 'config_text' in txt]
+                    ctx.tri(not outer, bool(by_text), rule,
+                            f"{cname}.config setter looks at the settings of the new Config, whatever it was built from",
+                            detail_bad=f"the settings are applied only if `{by_text[0] if by_text else ''}`: .config_text is filled by the "
+                                       f"text constructor only, so a Config made by from_dict() / from_kwargs() (or changed "
+                                       f"after creation) has no effect although its own text form has",
+                            key=f"{rule}|{cname}.config.setter|gated", where=f"{ci.module.relpath}:{lp.lineno}",
+                            why=f"the loop that applies the settings runs under {outer}")
                 for t in ast.walk(lp):
                     if isinstance(t, ast.If) and any(isinstance(c, ast.Call) and dotted(c.func) == 'setattr' for c in ast.walk(t)):
                         lits = [(txt, pol) for _e, txt, pol in literals([(t.test, True)])]
